@@ -18,9 +18,9 @@ CASE_FILE_BYTES = 140000
 TIERS = {"quick": {"n": 1800}, "thorough": {"n": 15000, "exhaustive": True}}
 RULE = ("(base, ref1, ref2): absolute base URL with authority (optional userinfo/port/query/fragment, path of 0-6 "
         "segments incl. '.', '..', '' and trailing slash) x references that are path-relative / path-absolute "
-        "(0-7 segments over {., .., '', a, b, c;x, d:e, ..., .a, b., x=1, @, e-acute}), query-only, fragment-only, "
+        "(0-7 segments over {., .., '', a, b, c;x, d:e, ..., .a, b., x=1, @, e-acute}; 1 in 12 is a run of '..' that reaches the root followed by an empty/dot tail), query-only, fragment-only, "
         "empty, or absolute URLs; ref2 is applied to the result (chaining); references alternate between str and URL "
-        "objects; thorough adds every reference path of <= 4 segments over {., .., '', a, b} x 7 base shapes. "
+        "objects; 15 % of the bases are rebuilt with URL.from_parts(path_parts without the leading '');  thorough adds every reference path of <= 4 segments over {., .., '', a, b} x 7 base shapes. "
         "non-trivial = ref1 or ref2 has a '.', '..' or empty path segment, or is query-/fragment-only; "
         "distinct = distinct (base, ref1, ref2) hash")
 ASSUMPTIONS = ["texts are free of '%', of ';' '+' in queries, of IPv6/IDNA hosts (quoting/IDNA belong to C06)",
@@ -115,12 +115,25 @@ def _relpath(rng, absolute):
     return p
 
 
+def _climb(rng):
+    """enough '..' to reach (and push against) the root, then an empty / dot / ordinary tail: the
+    regime where an unrooted segment stack shows"""
+    segs = ['..'] * rng.randint(1, 6)
+    if rng.random() < 0.3:
+        segs.insert(rng.randrange(len(segs)), rng.choice(['.', 'a', '']))
+    segs += rng.choice([['', 'a'], [''], ['', '.'], ['', '..', 'b'], ['a'], [], ['.'], ['', '']])
+    p = '/'.join(segs)
+    return p if not p.startswith('/') else '.' + p
+
+
 def _ref(rng):
-    kind = rng.choice(['rel', 'rel', 'rel', 'rel', 'abs', 'abs', 'query', 'frag', 'empty', 'qf', 'url', 'marker'])
+    kind = rng.choice(['rel', 'rel', 'rel', 'climb', 'abs', 'abs', 'query', 'frag', 'empty', 'qf', 'url', 'marker'])
     if kind == 'marker' and rng.random() < 0.7:
         kind = 'rel'
     q = '?' + rng.choice(QUERIES)
     f = '#' + rng.choice(FRAGS)
+    if kind == 'climb':
+        return _climb(rng) + (q if rng.random() < 0.2 else '')
     if kind == 'rel':
         p = _relpath(rng, False)
         return p + (q if rng.random() < 0.3 else '') + (f if rng.random() < 0.2 else '')
@@ -173,6 +186,18 @@ def generate(rng, tier, n):
     for _ in range(n):
         yield {"base": _base(rng), "ref1": _ref(rng), "as_url1": rng.random() < 0.5,
                "ref2": _ref(rng), "as_url2": rng.random() < 0.5, "unrooted": rng.random() < 0.15}
+
+
+def search(rng, tier, n, broken):
+    """After a broken tie (model/implementation disagreement, a proof obligation over regenerated data
+    or the source translation failing): the exhaustive small-scope sweep, each reference also against
+    the from_parts-built twin of the base, then random cases."""
+    for c in _exhaustive():
+        yield c
+        if not c["unrooted"]:
+            yield dict(c, unrooted=True)
+    for c in generate(rng, "quick", min(n, 2000)):
+        yield c
 
 
 # --------------------------------------------------------------------------
